@@ -235,6 +235,16 @@ def shard_dialogue(P, vtag, all_metrics, n, seed):
         targets.append(m)
     for _ in range(n):
         targets.append({k: rng.choice(T.VALUES[ver][k]) for k in T.ORDER[ver]})
+    # the LONGEST and the shortest vector the builder can return (every metric answered with one of its longest / shortest
+    # spellings; Not Defined spelt out and left empty): length limits anywhere between builder and parser show here
+    for pick in (max, min):
+        for _ in range(6):
+            tgt = {}
+            for k in T.ORDER[ver]:
+                ext = len(pick(T.VALUES[ver][k], key=len))
+                tgt[k] = rng.choice([v for v in T.VALUES[ver][k] if len(v) == ext])
+            targets.append(tgt)
+            P.stratum("dialogue-extreme-length-target")
     for tgt in targets:
         answers = DLG.script_for(order, tgt, rng, noise=0.2, case=rng.choice(("asis", "lower", "upper")), ver=ver)
         P.dist((vtag, all_metrics, tuple(answers)))
